@@ -25,7 +25,7 @@ confirmed = clean == 0 and patched not in (0, None)
 dst = os.path.join("/verif/seeded", name)
 os.makedirs(dst, exist_ok=True)
 for f in ("patch.diff", "demo.py", "README.md"):
-    if os.path.exists(os.path.join(seed, f)):
+    if os.path.exists(os.path.join(seed, f)) and os.path.abspath(seed) != os.path.abspath(dst):
         shutil.copy(os.path.join(seed, f), dst)
 readme = open(os.path.join(seed, "README.md")).read() if os.path.exists(os.path.join(seed, "README.md")) else ""
 meta = {
